@@ -87,6 +87,10 @@ var c11Queries = []c11q{
 	{"distinct-selector", "SELECT id, `distinct=>tags` AS tags FROM `{R}t`"},
 	{"distinct-selector", "SELECT `distinct=>{R}t[each].b` AS bs, `distinct=>{R}t[0].tags` AS t0 FROM dual"},
 	{"mix-selector", "SELECT id, `mix=>grid` AS flat FROM `{R}t`"},
+	// EXISTS / subqueries / FROM over a nested array of arrays of objects of the row
+	{"exists-nested-arrays", "SELECT id FROM `{R}t` WHERE EXISTS (SELECT w FROM cells WHERE w > 0)"},
+	{"subquery-nested-arrays", "SELECT id, (SELECT w FROM cells WHERE w >= `<-a`) AS s FROM `{R}t`"},
+	{"in-subquery-nested-arrays", "SELECT id FROM `{R}t` WHERE a IN (SELECT w FROM `mix=>cells`)"},
 }
 
 // fault templates: FAULT / RAISE_WHEN spliced into every clause position
@@ -161,7 +165,8 @@ func c11Docs() []func() map[string]any {
 		for _, q := range qs {
 			items = append(items, map[string]any{"q": q})
 		}
-		return map[string]any{"id": id, "a": a, "b": b, "n": nil, "o": map[string]any{"p": a * 10, "r": "s"}, "items": withCap(items...), "grid": withCap(withCap(a, id), withCap(id)), "tags": withCap("x", "x", b, "x", "y")}
+		return map[string]any{"id": id, "a": a, "b": b, "n": nil, "o": map[string]any{"p": a * 10, "r": "s"}, "items": withCap(items...), "grid": withCap(withCap(a, id), withCap(id)), "tags": withCap("x", "x", b, "x", "y"),
+			"cells": withCap(withCap(map[string]any{"w": a}, map[string]any{"w": -a}), withCap(map[string]any{"w": id}))}
 	}
 	return []func() map[string]any{
 		func() map[string]any {
@@ -312,7 +317,7 @@ func (p *c11) RunCase(i int) *core.CaseResult {
 
 func (p *c11) Meta() core.Meta {
 	return core.Meta{
-		Rule:        "one case per (query, Wrapped or not): 64 queries covering every clause kind (WHERE operator families, projections incl. star / FUSE / path selectors / pipes, ORDER BY / LIMIT, DISTINCT, GROUP BY / HAVING / aggregates, every join strategy incl. INTO and PARALLEL, UNION, CTEs incl. one that shadows a document key and WITH clauses below the outermost statement, joins without table aliases, derived tables, select-list / IN / EXISTS subqueries with <-, nested FROM and mix=>, ASYNC / SPINASYNC / ONCE / SETVAR functions, dual with and without an alias) and 35 fault templates with FAULT(x) / RAISE_WHEN / a type error in every clause position, incl. nested queries that fail while being built (derived table / CTE / union branch / join side / bad selector inside a select-list, IN or EXISTS subquery); on 5 documents (spare capacity with sentinel values in every array, empty, single row, a document whose arrays and rows are aliased); fault templates are run fault-free to count the N invocations of the fault point and then once per k in 1..N. Oracle: cycle-safe deep comparison of the caller's document (keys, values, lengths, spare capacity) with a snapshot taken before New. non-trivial = the query returned rows / a fault fired",
+		Rule:        "one case per (query, Wrapped or not): 67 queries covering every clause kind (WHERE operator families, projections incl. star / FUSE / path selectors / pipes, ORDER BY / LIMIT, DISTINCT, GROUP BY / HAVING / aggregates, every join strategy incl. INTO and PARALLEL, UNION, CTEs incl. one that shadows a document key and WITH clauses below the outermost statement, joins without table aliases, derived tables, select-list / IN / EXISTS subqueries with <-, nested FROM and mix=>, ASYNC / SPINASYNC / ONCE / SETVAR functions, dual with and without an alias) and 35 fault templates with FAULT(x) / RAISE_WHEN / a type error in every clause position, incl. nested queries that fail while being built (derived table / CTE / union branch / join side / bad selector inside a select-list, IN or EXISTS subquery); on 5 documents (spare capacity with sentinel values in every array, empty, single row, a document whose arrays and rows are aliased); fault templates are run fault-free to count the N invocations of the fault point and then once per k in 1..N. Oracle: cycle-safe deep comparison of the caller's document (keys, values, lengths, spare capacity) with a snapshot taken before New. non-trivial = the query returned rows / a fault fired",
 		Assumptions: []string{"the result may share structure with the input (rows are passed by reference); only writes by the library are violations", "ASYNC functions of the harness do not modify their arguments"},
 		Bounds:      map[string]any{"queries": len(c11Queries), "fault_templates": len(c11Faulted), "documents": len(p.docs)},
 		Exhaustive:  true,
